@@ -872,12 +872,6 @@ class Messenger(Connection):
 
         sock_tls = self.get_secure_socket()
         if sock_tls:
-            # Native (python ssl) validation for reference
-            try:
-                ssl.match_hostname(sock_tls.getpeercert(), peer_dnsid or peer_addr_str)
-            except ssl.CertificateError as err:
-                self._logger.warning('Native name validation failed: %s', err)
-
             # Verify TLS name bindings
             cert_der = sock_tls.getpeercert(True)
             cert = x509.load_der_x509_certificate(cert_der, default_backend())
